@@ -169,6 +169,14 @@ def regenerate_tables():
         exits = json.loads(r2.stdout)
     except Exception as e:
         return "exit-site extraction unreadable: %s" % e
+    r3 = subprocess.run(["go", "run", ".", REPO, "--state"], cwd=os.path.join(VERIF, "extract"), env=GOENV,
+                        stdout=subprocess.PIPE, stderr=subprocess.PIPE, text=True)
+    if r3.returncode != 0:
+        return "package-state extraction failed: " + r3.stderr[-500:]
+    try:
+        state = json.loads(r3.stdout)
+    except Exception as e:
+        return "package-state extraction unreadable: %s" % e
     b = []
     b.append("/-\n  Model/Tables.lean — REGENERATED from the tree under check on every run of bin/check (do not edit): builtin\n"
              "  signatures, allowed types and diagnostic severities as the program holds them at run time (/verif/extract/rt),\n"
@@ -185,6 +193,9 @@ def regenerate_tables():
     b.append("\n]\n\n/-- os.Exit sites of internal/cmd: (function, nearest enclosing if-condition, argument), as source text -/\n"
              "def cliExitTable : List (String × String × String) := [\n")
     b.append(",\n".join("  (%s, %s, %s)" % (lean_str(e["fn"]), lean_str(e["guard"]), lean_str(e["arg"])) for e in exits))
+    b.append("\n]\n\n/-- package-level variables of the hand-written packages: (package, name, kind) -/\n"
+             "def packageStateTable : List (String × String × String) := [\n")
+    b.append(",\n".join("  (%s, %s, %s)" % (lean_str(e["pkg"]), lean_str(e["name"]), lean_str(e["kind"])) for e in state))
     b.append("\n]\n\n")
     b.append(TABLES_TAIL)
     text = "".join(b)
